@@ -17,19 +17,29 @@ import lib  # noqa: E402  (puts PV_REPO or /repo first on sys.path)
 ID = "C16"
 LEAN_TARGETS = ["PV.Props.C16"]
 RULE = ("exhaustive product {line1/line2: both, line1 only, line2 only, none} x {tle_file: None, path, StringIO, admin-message "
-        "XML, ''} x {TLES: unset, three directories of three files whose newest (by ctime) is the lexicographically last / "
-        "first / middle one, a pattern matching nothing, ''} x {PYORBITAL_CONFIG_PATH: unset, dir with platforms.txt, dir "
-        "without} x {PPP_CONFIG_DIR: unset, set (holding its own platforms.txt)}; one fresh interpreter per registry "
-        "combination (6 children); every source serves the same satellite with a different element number, so the returned "
+        "XML, '', and the given sources that yield nothing: admin message without <navigation>, admin message with another "
+        "satellite's elements only, empty file, file holding only the name line, file / StringIO without the platform, empty "
+        "StringIO} x {TLES: unset, three directories of three files whose newest (by ctime) is the lexicographically last / "
+        "first / middle one, a pattern matching nothing, ''} x {PYORBITAL_CONFIG_PATH: unset, dir with platforms.txt, "
+        "existing dir without (holding another file), non-existent dir} x {PPP_CONFIG_DIR: unset, set (holding its own "
+        "platforms.txt), set to a non-existent dir}; one fresh interpreter per registry combination (12 children; an import "
+        "of pyorbital.tlefile that fails there is a violation of 'the packaged file otherwise', not a harness error); every "
+        "source serves the same satellite with a different element number, so the returned "
         "Tle names its origin; urlopen / urllib.request.urlopen / requests / socket.connect are interposed and counted; "
-        "plus: a hard-link pair of equal ctime (ties), local sources that do not hold the platform (must fail without a "
-        "download); distinct = (lines, tle_file, TLES, config path, ppp)")
+        "plus: a hard-link pair of equal ctime (ties), a TLES match whose newest file does not hold the platform (must fail "
+        "without a download); distinct = (lines, tle_file, TLES, config path, ppp)")
 ASSUMPTIONS = ["strings are abstracted to the classes the code distinguishes: tle_file None / falsy / StringIO / str containing "
                "'ADMIN_MESSAGE' / other str; TLES unset / '' / a pattern with its glob result",
                "ctimes compared as the floats os.path.getctime returns (passed to the model as the order-preserving bit pattern)",
                "tle_file='' and TLES='' (falsy values, outside the statement's quantifier) are tied to the model but not judged "
                "by the oracle",
-               "a pathlib.Path tle_file is outside the quantifier ('ADMIN_MESSAGE' in Path raises TypeError)"]
+               "a pathlib.Path tle_file is outside the quantifier ('ADMIN_MESSAGE' in Path raises TypeError)",
+               "a given source that yields nothing for the platform must end in an exception with zero network requests; "
+               "which exception (KeyError, StopIteration for a truncated entry) is not judged",
+               "a PYORBITAL_CONFIG_PATH naming a non-existent directory is the model's class 'set, no platforms.txt there'; "
+               "PPP_CONFIG_DIR naming a non-existent directory is 'set'",
+               "an exception (or interpreter exit) raised by `import pyorbital.tlefile` in a fresh interpreter is read as "
+               "'no registry in this environment' (the registry is built at import)"]
 TRUSTED = ["model: PV.Model.Sources (hand-written from tlefile.py _read_tle, _get_uris_and_open_func, _get_config_path, "
            "get_platforms_filepath), tied by the exhaustive product with the chosen URIs/open function recorded at "
            "_get_uris_and_open_func and the registry read in fresh interpreters"]
@@ -72,10 +82,13 @@ def tagged(num):
 
 TAGS = {"L": 101, "P": 102, "S": 103, "X": 104, "N": 105}
 LINES_KINDS = ["both", "l1", "l2", "none"]
-TF_KINDS = ["none", "path", "stringio", "xml", "empty"]
+# given sources that are configured but yield nothing for the platform ("... no network request is made, even if it yields nothing")
+TF_NOTHING = ["xml_nonav", "xml_without", "path_empty", "path_nameonly", "path_without", "stringio_empty", "stringio_without"]
+TF_KINDS = ["none", "path", "stringio", "xml", "empty"] + TF_NOTHING
 TLES_KINDS = ["unset", "A", "B", "C", "nothing", "empty"]
-CFG_KINDS = ["unset", "withfile", "without"]
-PPP_KINDS = [False, True]
+CFG_KINDS = ["unset", "withfile", "without", "missing"]      # missing: the variable names a directory that does not exist
+PPP_KINDS = [False, True, "nodir"]                           # nodir: PPP_CONFIG_DIR is set to a directory that does not exist
+CFG_CODE = {"unset": "u", "withfile": "f", "without": "d", "missing": "d"}   # the model's classes (no file = dirWithout)
 ORDERS = {"A": ["a", "b", "c"], "B": ["c", "b", "a"], "C": ["a", "c", "b"]}   # creation order; the last is the newest
 
 
@@ -90,6 +103,13 @@ def xml_text(l1, l2):
     return "\n".join(('<?xml version="1.0" encoding="UTF-8"?>', "<multi-mission-administrative-message>", "<message>",
                       "<two-line-elements>", "<navigation>", "<line-1>" + l1 + "</line-1>", "<line-2>" + l2 + "</line-2>",
                       "</navigation>", "</two-line-elements>", "</message>", "</multi-mission-administrative-message>"))
+
+
+def xml_without_navigation():
+    """An announcement (manoeuvre, outage): a well-formed admin message that carries no element sets."""
+    return "\n".join(('<?xml version="1.0" encoding="UTF-8"?>', "<multi-mission-administrative-message>", "<message>",
+                      "<announcement>", "<text>out-of-plane manoeuvre planned; this message carries no elements</text>",
+                      "</announcement>", "</message>", "</multi-mission-administrative-message>"))
 
 
 def fbits(x):
@@ -130,8 +150,11 @@ def prepare(work):
         f.write("# custom registry\nNOAA-19 33591\nPVSAT 99001\n")
     with open(os.path.join(work, "ppp", "platforms.txt"), "w") as f:
         f.write("NOAA-19 33591\nPPPSAT 99002\n")
+    with open(os.path.join(work, "cfg_without", "other.cfg"), "w") as f:      # the directory is in use, for something else
+        f.write("[section]\nkey = value\n")
     spec["cfg"] = {"withfile": os.path.join(work, "cfg_with"), "without": os.path.join(work, "cfg_without"),
-                   "ppp": os.path.join(work, "ppp")}
+                   "missing": os.path.join(work, "cfg_no_such_dir"),
+                   "ppp": os.path.join(work, "ppp"), "ppp_nodir": os.path.join(work, "ppp_no_such_dir")}
     p = os.path.join(work, "given.tle")
     with open(p, "w") as f:
         f.write(collection(*tagged(TAGS["P"])))
@@ -144,6 +167,25 @@ def prepare(work):
     with open(x, "w") as f:
         f.write(xml_text(*tagged(TAGS["X"])))
     spec["xml"] = x
+    # given sources that yield nothing
+    spec["given"] = {"path": p, "path_without": p0, "xml": x}
+    xn = os.path.join(work, "20210421_NOAA-19_ADMIN_MESSAGE_NO_128.xml")
+    with open(xn, "w") as f:
+        f.write(xml_without_navigation())
+    spec["given"]["xml_nonav"] = xn
+    xo = os.path.join(work, "20210422_METOP-B_ADMIN_MESSAGE_NO_129.xml")
+    with open(xo, "w") as f:
+        f.write(xml_text(OTHER[1], OTHER[2]))
+    spec["given"]["xml_without"] = xo
+    pe = os.path.join(work, "given_empty.tle")
+    open(pe, "w").close()
+    spec["given"]["path_empty"] = pe
+    pn = os.path.join(work, "given_name_only.tle")
+    with open(pn, "w") as f:
+        f.write(PLATFORM + "\n")
+    spec["given"]["path_nameonly"] = pn
+    spec["stringio"] = {"stringio": collection(*tagged(TAGS["S"])), "stringio_without": collection("", "", with_platform=False),
+                        "stringio_empty": ""}
     spec["stringio_text"] = collection(*tagged(TAGS["S"]))
     spec["stringio_without"] = collection("", "", with_platform=False)
     spec["net_text"] = collection(*tagged(TAGS["N"]))
@@ -192,10 +234,32 @@ def child_main(spec_path):
     import socket
     import urllib.request
     import requests
-    from pyorbital import tlefile
+    # everything up to here is the harness's own; from here on a failure belongs to the code under test: the registry is
+    # built when pyorbital.tlefile is imported, so an import that fails in this environment means no registry at all
+    sys.stdout.write("\n@@C16-STAGE@@import\n")
+    sys.stdout.flush()
+    try:
+        from pyorbital import tlefile
+        satellites = dict(tlefile.SATELLITES)
+    except BaseException as e:  # noqa
+        import traceback
+        tb = traceback.extract_tb(e.__traceback__)
+        where = "%s:%d %s" % (os.path.basename(tb[-1].filename), tb[-1].lineno, tb[-1].name) if tb else ""
+        out = {"import_error": "%s: %s" % (type(e).__name__, str(e)[:300]), "import_error_at": where, "cases": [], "extras": []}
+        sys.stdout.write("\n@@C16@@" + json.dumps(out) + "\n")
+        sys.stdout.flush()
+        return
+    sys.stdout.write("\n@@C16-STAGE@@imported\n")
+    sys.stdout.flush()
 
-    out = {"module_file": tlefile.__file__, "satellites": dict(tlefile.SATELLITES),
-           "platforms_filepath": tlefile.get_platforms_filepath(), "config_path": tlefile._get_config_path(),
+    def attempt(f):
+        try:
+            return f()
+        except Exception as e:  # noqa
+            return "raised %s: %s" % (type(e).__name__, str(e)[:200])
+
+    out = {"module_file": tlefile.__file__, "satellites": satellites,
+           "platforms_filepath": attempt(tlefile.get_platforms_filepath), "config_path": attempt(tlefile._get_config_path),
            "pkg_config_dir": tlefile.PKG_CONFIG_DIR, "cases": []}
     net = {"n": 0, "urls": []}
 
@@ -241,18 +305,14 @@ def child_main(spec_path):
         if lines in ("both", "l2"):
             kw["line2"] = L2
         given = None
-        if tf_kind == "path":
-            given = spec["path"]
-        elif tf_kind == "stringio":
-            given = io.StringIO(spec["stringio_text"])
-        elif tf_kind == "xml":
-            given = spec["xml"]
+        if tf_kind in spec["given"]:
+            given = spec["given"][tf_kind]
+        elif tf_kind in spec["stringio"]:
+            given = io.StringIO(spec["stringio"][tf_kind])
         elif tf_kind == "empty":
             given = ""
-        elif tf_kind == "path_without":
-            given = spec["path_without"]
-        elif tf_kind == "stringio_without":
-            given = io.StringIO(spec["stringio_without"])
+        elif tf_kind != "none":
+            raise RuntimeError("unknown tle_file kind %r" % (tf_kind,))
         if tf_kind != "none":
             kw["tle_file"] = given
         os.environ.pop("TLES", None)
@@ -269,7 +329,7 @@ def child_main(spec_path):
         try:
             t = tlefile.Tle(spec["platform"], **kw)
             res["tag"] = tag_of.get((t.line1, t.line2), "?%s|%s" % (t.line1, t.line2))
-        except Exception as e:  # noqa
+        except Exception as e:  # noqa  (StopIteration of a truncated entry included)
             res["exc"] = type(e).__name__
             res["msg"] = str(e)[:120]
         # which source did _get_uris_and_open_func select
@@ -304,9 +364,8 @@ def child_main(spec_path):
 
 
 # ------------------------------------------------------------------ parent
-EXTRAS = [("none", "path_without", "unset"), ("l1", "path_without", "A"), ("none", "stringio_without", "unset"),
-          ("l2", "stringio_without", "B"), ("none", "none", "W"), ("l1", "none", "W"),
-          ("none", "none", "Tie"), ("l2", "empty", "Tie")]
+EXTRAS = [("none", "none", "W"), ("l1", "none", "W"), ("none", "empty", "W"), ("none", "none", "Tie"), ("l2", "empty", "Tie"),
+          ("none", "xml_nonav", "W"), ("l1", "path_empty", "Tie"), ("l2", "stringio_empty", "W"), ("none", "path_nameonly", "Tie")]
 
 
 def parse_registry_file(path, upper=True):
@@ -340,7 +399,7 @@ def observe(ctx):
                 if cfg != "unset":
                     env["PYORBITAL_CONFIG_PATH"] = spec["cfg"][cfg]
                 if ppp:
-                    env["PPP_CONFIG_DIR"] = spec["cfg"]["ppp"]
+                    env["PPP_CONFIG_DIR"] = spec["cfg"]["ppp_nodir" if ppp == "nodir" else "ppp"]
                 env["PV_REPO"] = lib.REPO
                 p = subprocess.Popen([sys.executable, os.path.abspath(__file__), "--child", spec_path], env=env,
                                      stdout=subprocess.PIPE, stderr=subprocess.PIPE, cwd=work)
@@ -349,11 +408,20 @@ def observe(ctx):
         for cfg, ppp, p in procs:
             so, se = p.communicate(timeout=300)
             so = so.decode(errors="replace")
-            if p.returncode != 0 or "@@C16@@" not in so:
+            if "@@C16@@" in so and p.returncode == 0:
+                data = json.loads(so.split("@@C16@@", 1)[1].strip().split("\n")[0])
+            elif "@@C16-STAGE@@import\n" in so and "@@C16-STAGE@@imported" not in so:
+                # the interpreter itself went down while importing the code under test (exit, abort): same meaning as an
+                # exception there
+                tail = [l for l in se.decode(errors="replace").strip().split("\n") if l.strip()][-1:]
+                data = {"import_error": "interpreter exited with status %s during the import%s" % (
+                    p.returncode, (": " + tail[0][:300]) if tail else ""), "import_error_at": "", "cases": [], "extras": []}
+            else:
                 raise RuntimeError("child (%s, ppp=%s) failed rc=%s: %s" % (cfg, ppp, p.returncode, se.decode(errors="replace")[-800:]))
-            data = json.loads(so.split("@@C16@@", 1)[1].strip().split("\n")[0])
             obs["children"].append({"cfg": cfg, "ppp": ppp, "data": data})
-        pkg_dir = obs["children"][0]["data"]["pkg_config_dir"]
+        pkg_dirs = [c["data"]["pkg_config_dir"] for c in obs["children"] if "pkg_config_dir" in c["data"]]
+        # (as tlefile.PKG_CONFIG_DIR is defined, should no child have been able to import the module)
+        pkg_dir = pkg_dirs[0] if pkg_dirs else os.path.join(os.path.realpath(os.path.join(lib.REPO, "pyorbital")), "etc")
         obs["packaged"] = parse_registry_file(os.path.join(pkg_dir, "platforms.txt"))
         obs["custom"] = parse_registry_file(os.path.join(spec["cfg"]["withfile"], "platforms.txt"))
         obs["pppreg"] = parse_registry_file(os.path.join(spec["cfg"]["ppp"], "platforms.txt"))
@@ -364,6 +432,8 @@ def observe(ctx):
 
 
 def registry_observed(obs, data):
+    if "import_error" in data:
+        return "unavailable"
     sat = data["satellites"]
     if sat == obs["custom"]:
         return "custom"
@@ -378,10 +448,12 @@ def encode_case(spec, case, cfg, ppp):
     """Driver line for the model."""
     l1 = "1" if case["lines"] in ("both", "l1") else "0"
     l2 = "1" if case["lines"] in ("both", "l2") else "0"
-    tf = {"none": "n", "empty": "e", "stringio": "s", "stringio_without": "s"}.get(case["tf"])
-    if tf is None:
-        p = {"path": spec["path"], "path_without": spec["path_without"], "xml": spec["xml"]}[case["tf"]]
-        tf = ("x:" if case["tf"] == "xml" else "p:") + lib.s2h(p)
+    if case["tf"] in ("none", "empty"):
+        tf = case["tf"][0]
+    elif case["tf"] in spec["stringio"]:
+        tf = "s"
+    else:
+        tf = ("x:" if case["tf"].startswith("xml") else "p:") + lib.s2h(spec["given"][case["tf"]])
     if case["tles"] == "unset":
         tl = "u"
     elif case["tles"] == "empty":
@@ -390,7 +462,7 @@ def encode_case(spec, case, cfg, ppp):
         tl = "g"
     else:
         tl = "g:" + ",".join("%s=%d" % (lib.s2h(p), ct) for p, ct in case["glob"])
-    return "c16 %s %s %s %s %s %s" % (l1, l2, tf, tl, {"unset": "u", "withfile": "f", "without": "d"}[cfg], "1" if ppp else "0")
+    return "c16 %s %s %s %s %s %s" % (l1, l2, tf, tl, CFG_CODE[cfg], "1" if ppp else "0")
 
 
 def model_to_obs(tok):
@@ -407,6 +479,11 @@ def correspond(ctx):
     spec = obs["spec"]
     lines, meta = [], []
     for ch in obs["children"]:
+        if "import_error" in ch["data"]:
+            # no source could be chosen in this interpreter; the model's registry for the environment is still compared
+            lines.append("c16 0 0 n u %s %s" % (CFG_CODE[ch["cfg"]], "1" if ch["ppp"] else "0"))
+            meta.append((ch, None, "import"))
+            continue
         for kind in ("cases", "extras"):
             for case in ch["data"][kind]:
                 lines.append(encode_case(spec, case, ch["cfg"], ch["ppp"]))
@@ -414,6 +491,11 @@ def correspond(ctx):
     outs = ctx.driver().run(lines)
     for line, (ch, case, kind), o in zip(lines, meta, outs):
         msrc, mreg = o.split(" ")
+        if case is None:
+            ctx.count("eval_corr")
+            ctx.disagree("c16-registry", {"config_path": ch["cfg"], "ppp": ch["ppp"], "driver": line},
+                         "unavailable (%s)" % ch["data"]["import_error"], mreg)
+            continue
         msrc = model_to_obs(msrc)
         got = case["src"]
         if got.startswith("error:"):
@@ -447,7 +529,7 @@ def expected(spec, case):
         return {"L"}, False
     if case["tf"] in ("path", "stringio", "xml"):
         return {{"path": "P", "stringio": "S", "xml": "X"}[case["tf"]]}, False
-    if case["tf"] in ("path_without", "stringio_without"):
+    if case["tf"] in TF_NOTHING:
         return None, False
     if case["tf"] == "empty":
         return "skip", False
@@ -496,6 +578,12 @@ def judge_registry(ctx, obs, ch):
     want = "custom" if ch["cfg"] == "withfile" else "packaged"
     got = registry_observed(obs, ch["data"])
     ctx.count("eval_oracle_registry")
+    if got == "unavailable":
+        ctx.violation("registry_unavailable", {"config_path": ch["cfg"], "ppp": ch["ppp"]},
+                      "in a fresh interpreter `import pyorbital.tlefile` fails with %s%s" % (
+                          ch["data"]["import_error"], (" (" + ch["data"]["import_error_at"] + ")") if ch["data"].get("import_error_at") else ""),
+                      "the %s registry" % want, site="get_platforms_filepath")
+        return 1
     if got != want:
         ctx.violation("wrong_registry", {"config_path": ch["cfg"], "ppp": ch["ppp"]},
                       "%s (file %s)" % (got, ch["data"]["platforms_filepath"]), want, site="get_platforms_filepath")
@@ -530,10 +618,14 @@ def replay(ctx, case):
         if "lines" not in inp:
             if ch["cfg"] == inp.get("config_path") and ch["ppp"] == inp.get("ppp"):
                 rc |= judge_registry(ctx, obs, ch)
-                print("registry:", registry_observed(obs, ch["data"]), ch["data"]["platforms_filepath"])
+                print("environment:", json.dumps({"PYORBITAL_CONFIG_PATH": ch["cfg"], "PPP_CONFIG_DIR": ch["ppp"]}))
+                print("registry:", registry_observed(obs, ch["data"]),
+                      ch["data"].get("platforms_filepath") or ch["data"].get("import_error"))
             continue
         if ch["cfg"] != inp.get("config_path") or ch["ppp"] != inp.get("ppp"):
             continue
+        if "import_error" in ch["data"]:       # nothing can be read in this environment at all
+            rc |= judge_registry(ctx, obs, ch)
         for kind in ("cases", "extras"):
             for c in ch["data"][kind]:
                 if (c["lines"], c["tf"], c["tles"]) == (inp["lines"], inp["tle_file"], inp["TLES"]):
